@@ -102,6 +102,8 @@ func jobsFor(prop, tier string) []*Job {
 	case "C04":
 		add(&Job{Name: "O1-step", Pkg: "connlimit", Harness: "VerifC04Step", Inductive: true,
 			Bounds: "one acquire/release from an arbitrary consistent state: 3 sources, 0<=max<2^31, in-flight counts symbolic in [0,max]"})
+		add(&Job{Name: "O3-atomic-admission", Pkg: "connlimit", Harness: "VerifC04Atomic",
+			Bounds: "two concurrent acquire calls of one source holding max-1 slots, max in {1,2,3}: the second runs to completion at any one lock boundary of the first (two-thread sequentialisation); exactly one admitted, counts consistent; native replay by barrier-released stress (200000 rounds)"})
 		depth, top := 3, 2
 		if thorough {
 			depth, top = 4, 2
